@@ -34,6 +34,7 @@ func (r *bstRunner) Do(op []string) string {
 		var items []string
 		n, inner := 0, 0
 		r.t.Traverse(func(it bstree.Item[int, int]) {
+			faultTick()
 			n++
 			if n > 100000 {
 				panic(hangSignal{})
@@ -87,6 +88,7 @@ func (r *btreeRunner) Do(op []string) string {
 	case "traverse":
 		var items []string
 		r.t.Traverse(func(k, v int) {
+			faultTick()
 			items = append(items, "["+itoa(k)+","+itoa(v)+"]")
 		})
 		return plist(items)
@@ -134,6 +136,7 @@ func (r *btreeFRunner) Do(op []string) string {
 	case "traverse":
 		var items []string
 		r.t.Traverse(func(k float64, v int) {
+			faultTick()
 			items = append(items, "["+itoa(fkeyInv(k))+","+itoa(v)+"]")
 		})
 		return plist(items)
